@@ -192,10 +192,11 @@ class Worker:
             return None
 
 
-def run_batch(exe, prop, base, tlimit, jobs, tmpdir, hang_s=15):
-    """runs the workers; returns (lines, dead) where dead = [(index, kind)]"""
+def run_batch(exe, prop, base, tlimit, jobs, tmpdir, hang_s=15, count=None):
+    """runs the workers; returns (lines, dead) where dead = [(index, kind)].
+    count = number of runs per worker (None: as many as fit in tlimit)"""
     span = 1 << 40
-    workers = [Worker(exe, prop, base, w, w * span, span, tlimit, tmpdir) for w in range(jobs)]
+    workers = [Worker(exe, prop, base, w, w * span, count or span, tlimit, tmpdir) for w in range(jobs)]
     dead = []
     outs = []
     lost_runs = 0
@@ -271,6 +272,16 @@ def check(prop, tier, seed, tlimit, jobs, keep=False):
         exes.append(exe)
     ename = enames[0]
     build_s = time.time() - t0
+    # the quick tier does a fixed amount of work (runs per engine, calibrated
+    # on this sandbox to about the nominal time): the batch explored under one
+    # seed is then the same whatever the load of the machine; the time limit
+    # only caps it. An explicit --time and the thorough tier are time-based.
+    budgets = {}
+    if tlimit is None and tier == 'quick':
+        try:
+            budgets = json.load(open(os.path.join(ROOT, 'tools', 'budgets.json'))).get(prop, {})
+        except Exception:
+            budgets = {}
     if tlimit is None:
         tlimit = pinfo.get(tier + '_time', 30 if tier == 'quick' else 600)
     os.makedirs(os.path.join(ROOT, 'replays'), exist_ok=True)
@@ -280,6 +291,7 @@ def check(prop, tier, seed, tlimit, jobs, keep=False):
     t1 = time.time()
     tot = {}
     stats = {}
+    per_engine = {}
     viols = []
     dead_all = []
     tmpdirs = []
@@ -288,7 +300,17 @@ def check(prop, tier, seed, tlimit, jobs, keep=False):
         shutil.rmtree(tmpdir, ignore_errors=True)
         os.makedirs(tmpdir)
         tmpdirs.append(tmpdir)
-        lines, dead = run_batch(exe, prop, seed, tlimit / len(exes), jobs, tmpdir)
+        nruns = budgets.get(os.path.basename(exe))
+        if nruns:
+            lines, dead = run_batch(exe, prop, seed, 4.0 * tlimit / len(exes), jobs, tmpdir,
+                                    count=(int(nruns) + jobs - 1) // jobs)
+        else:
+            lines, dead = run_batch(exe, prop, seed, tlimit / len(exes), jobs, tmpdir)
+        eruns = 0
+        for ln in lines:
+            if ln.startswith('DONE '):
+                eruns += sum(int(kv.split('=')[1]) for kv in ln.split()[1:] if kv.startswith('runs='))
+        per_engine[os.path.basename(exe)] = eruns
         for ln in lines:
             if ln.startswith('DONE '):
                 for kv in ln.split()[1:]:
@@ -402,6 +424,9 @@ def check(prop, tier, seed, tlimit, jobs, keep=False):
             'violations_by_class': {k[5:]: v for k, v in stats.items() if k.startswith('viol_')},
             'workers': jobs, 'worker_restarts': len(dead),
             'engines': enames,
+            'runs_per_engine': per_engine,
+            'budget': ('fixed number of runs per engine (tools/budgets.json), capped at 4 x the nominal time' if budgets
+                       else 'time-based: %.0f s' % tlimit),
             'real_code': sorted(set(sum((ENGINES[e].get('real', []) for e in enames), []))),
             'stubs': sorted(set(sum((ENGINES[e].get('stubs', []) for e in enames), []))),
             'known_findings_matched': [r[2] for r in reported if r[0] == 'known'],
